@@ -11,13 +11,14 @@
 //!   `lower <prog> <ix> <dischex> <idlset>`           Codama lowering of that instruction
 //!   `cnames <prog> ix|ty (<names>)` / `cnames-inorder <prog> acct (<names>)`   names/order in the ProgramNode
 //!   `usize <hex>`                        `discriminant_to_usize` through an enum variant
+//!   `fields <name> (<names>)`          field names+order of a harness struct type in the IDL (op: Rust declaration order)
 //!   `ty <name> <shape>` / `enc <name> <shape> <val>` / `dec <idlty> <hex>`       type layouts
 //!   `set <name> <setshape>` / `metas <name> <setshape> <progid> <present>`      harness account sets
 use crate::{
     sets, shipped,
     shipped::IxRow,
     shipped_gen as g,
-    sx::{self, Val},
+    sx::{self, Sx, Val},
     types,
 };
 use hx_common::{hex, unhex, Args, Recorder, Rng};
@@ -122,6 +123,7 @@ pub fn programs() -> Vec<Prog> {
                 shipped::ix_row::<crate::HxIdl, sets::SetNested>(),
                 shipped::ix_row::<crate::HxIdl, sets::SetInit>(),
                 shipped::ix_row::<crate::HxIdl, sets::SetOne>(),
+                shipped::ix_row::<crate::HxIdl, sets::SetOptFlat>(),
                 shipped::ix_row::<crate::HxIdl, sets::SetEmpty>(),
                 shipped::ix_row::<crate::HxIdl, sets::WithArgs>(),
             ],
@@ -153,6 +155,7 @@ shipped::dummy_struct!(sets::EmptyClientAccounts {});
 shipped::dummy_struct!(sets::SetNestedClientAccounts { head, pair, boxed, one, tup, none, bx });
 shipped::dummy_struct!(sets::SetInitClientAccounts { funder, owner, sys, zc, un, existing, seeded, borsh, val });
 shipped::dummy_struct!(sets::SetOneClientAccounts { only });
+shipped::dummy_struct!(sets::SetOptFlatClientAccounts { a, b, mid, last });
 shipped::dummy_struct!(sets::SetDowngradeClientAccounts { a, b });
 shipped::dummy_struct!(sets::wide::WideAClientAccounts { who, acct });
 use shipped::Dummy;
@@ -524,6 +527,23 @@ fn exec(env: &mut Env, rec: &mut Recorder, line: &str) -> String {
             let Some(frag) = a(1).and_then(|n| env.type_frag.get(n)) else { return "bad-op".into() };
             format!("ok {}", sx::show_idl_ty(&env.type_idl, frag, 0))
         }
+        ("fields", 3) => {
+            // names of the struct's fields as the IDL has them (the op carries the Rust declaration order)
+            let Some(frag) = a(1).and_then(|n| env.type_frag.get(n)) else { return "bad-op".into() };
+            let Sx::L(want) = &xs[2] else { return "bad-op".into() };
+            let got: Vec<String> = match frag {
+                IdlTypeDef::Defined(id) => match env.type_idl.get_type(&id.source).map(|t| &t.type_def) {
+                    Some(IdlTypeDef::Struct(fs)) => fs.iter().map(|f| f.path.clone().unwrap_or_else(|| "#".into())).collect(),
+                    _ => return "bad-op".into(),
+                },
+                _ => return "bad-op".into(),
+            };
+            let want: Vec<String> = want.iter().filter_map(|x| x.atom().map(|s| s.to_string())).collect();
+            if got != want {
+                rec.fail("idl_struct_field_names_differ", &format!("{line}: idl {got:?}"));
+            }
+            format!("ok {}", if got.is_empty() { "-".to_string() } else { got.join(" ") })
+        }
         ("enc", 4) => {
             let Some(t) = a(1).and_then(|n| env.types.iter().find(|t| t.name == n)) else { return "bad-op".into() };
             env.last_enc = None;
@@ -738,6 +758,9 @@ pub fn run(args: &Args) {
     for (name, shape_txt) in tys {
         rec.case(&format!("case type {name}"));
         go(&mut env, &mut rec, format!("ty {name} {shape_txt}"));
+        if let Some(fs) = types::expected_fields(name) {
+            go(&mut env, &mut rec, format!("fields {name} ({})", fs.join(" ")));
+        }
         let shape = sx::parse_shape(&sx::parse_line(&shape_txt).unwrap()[0]).expect("harness shape parses");
         let frag = sx::show_idl_ty(&env.type_idl, &env.type_frag[name], 0);
         for _ in 0..n_vals {
